@@ -9,7 +9,7 @@ THEOREMS = ['Cv.C11_loaded_values_unquotable', 'Cv.C11_added_values_readable', '
 ASSUMPTIONS = [
     'a theorem cannot observe a Rust panic: the claim is partial by construction. Proved: the conditions under which the expect()s of EntryValue::unquote and add_raw would fire are impossible in the model; all model functions are total (accepted by Lean\'s termination checker, or fuel bounded by the input length)',
     'tie: (T1) the inventory of every unwrap/expect/panic!/assert!/index expression of non-test code, regenerated from the source on every run and compared with the committed classification spec/panic_sites.json (a new or changed site is an unclassified obligation); (T2) every hook-driver call runs under catch_unwind and the binary is run on adversarial trees with a watchdog: exit status must be 0 or 1, never 101, a signal or a timeout',
-    'not modelled: allocation failure, stack exhaustion, the expect()s on writes to stdout/stderr, /dev/kmsg, a deleted working directory, signals',
+    'not modelled: allocation failure, stack exhaustion, the expect()s on writes to stdout/stderr, write errors of /dev/kmsg, a deleted working directory, signals (the logger itself runs for real: the adversarial and long-message trees are also run with logging to /dev/kmsg and with -v)',
 ]
 LEVEL_TEXT = ('Proof (reachability conditions of the expect sites, totality) + site inventory + panic observation: Lean theorems show that every raw value '
               'of a loaded unit is accepted by the unquoter (parse_valid: invariant over the parser), that every string the generator stores through '
@@ -164,6 +164,22 @@ def oracle(ctx):
                 files[dd + name + b'.d/' + rnd.choice([b'10.conf', b'\xff.conf', b'sub/n.conf', b'x.txt', b'\xff\xfe/n.conf'])] = mutate(rnd, content)
         trees_.append(files)
 
+    # long messages: input text is copied into log messages of any length; the default logging (to /dev/kmsg, with its record
+    # size limit) and -v are part of the environment.  Multi-byte characters at every alignment, lengths around 1 KiB and beyond
+    long_trees = []
+    for ch in ('ä', '日', '𝄞'):
+        for L in (330, 500, 1100, 5000):
+            for shift in range(4):
+                v = 'x' * shift + ch * L
+                long_trees.append({b'src/a.container': f'[Container]\nImage={v}\n'.encode(),
+                                   b'src/b.container': f'[Container]\nImage=localhost/i\nNetwork={v}.network\n'.encode(),
+                                   b'src/c.kube': f'[Kube]\nYaml=/k.yaml\n[Service]\nKillMode={v}\n'.encode(),
+                                   ('src/' + v[:80] + '.volume').encode(): f'[Volume]\n{ "Bogus" }={v}\n'.encode()})
+    if not ctx.thorough:
+        long_trees = rnd.sample(long_trees, 16)
+    n_adv = len(trees_)
+    trees_ += long_trees
+
     def run(files):
         base = e2e.fresh_dir()
         os.makedirs(os.path.join(base, 'src'))
@@ -176,16 +192,16 @@ def oracle(ctx):
             except OSError:
                 pass
         r = []
-        for dry in (True, False):
-            rc, so, se = e2e.run_binary((['--dry-run'] if dry else []) + ['--no-kmsg-log', os.path.join(base, 'out')], os.path.join(base, 'src'), timeout=10)
+        for args in (['--dry-run', '--no-kmsg-log'], ['--no-kmsg-log'], ['-v'], []):
+            rc, so, se = e2e.run_binary(args + [os.path.join(base, 'out')], os.path.join(base, 'src'), timeout=10)
             r.append((rc, se[-400:]))
         shutil.rmtree(base, ignore_errors=True)
         return r
     for files, rs in zip(trees_, e2e.pmap(run, trees_)):
-        for (rc, se), mode in zip(rs, ('--dry-run', 'normal run')):
+        for (rc, se), mode in zip(rs, ('--dry-run', 'normal run', 'normal run, logging to /dev/kmsg, -v', 'normal run, logging to /dev/kmsg')):
             res.oracle_evals += 1
             if rc not in (0, 1):
-                res.oracle_failures.append(dict(op='e2e', input={k.decode('utf-8', 'backslashreplace'): v.decode('utf-8', 'backslashreplace') for k, v in files.items()},
+                res.oracle_failures.append(dict(op='e2e', input={k.decode('utf-8', 'backslashreplace')[:300]: (v.decode('utf-8', 'backslashreplace') if len(v) < 600 else v[:200].decode('utf-8', 'replace') + f' … [{len(v)} bytes]') for k, v in files.items()},
                                                 impl_output=f'{mode}: exit status {rc}; {se}', oracle_expectation='terminates on its own with exit status 0 or 1'))
     res.samples.append(dict(kind='adversarial-tree', files={k.decode('utf-8', 'backslashreplace'): v.decode('utf-8', 'backslashreplace')[:200] for k, v in trees_[0].items()}))
     ctx.log(f'oracle: {res.oracle_evals} evaluations, {len(res.oracle_failures)} failures')
